@@ -20,6 +20,13 @@ type BoolAtom struct {
 	V     ssa.Value // the value as it occurs (first occurrence)
 	Cmp   Cmp       // canonical comparison (IsCmp)
 	IsCmp bool
+	Occ   []BoolOcc // every SSA value that is this atom or its negation
+}
+
+// BoolOcc: an occurrence of an atom; the value is true iff the atom has the value Pol.
+type BoolOcc struct {
+	V   ssa.Value
+	Pol bool
 }
 
 type BoolFn struct {
@@ -36,7 +43,17 @@ type boolAtomKey struct {
 type boolEval struct {
 	atoms []BoolAtom
 	index map[boolAtomKey]int
+	phis  []*ssa.Phi
 	fail  bool
+}
+
+func (be *boolEval) occur(i int, v ssa.Value, pol bool) {
+	for _, o := range be.atoms[i].Occ {
+		if o.V == v {
+			return
+		}
+	}
+	be.atoms[i].Occ = append(be.atoms[i].Occ, BoolOcc{v, pol})
 }
 
 // canonAtom maps a comparison to (atom key, polarity): mirrored and - for non-float
@@ -83,6 +100,7 @@ func (be *boolEval) atom(v ssa.Value) (int, bool) {
 				be.index[k] = i
 				be.atoms = append(be.atoms, BoolAtom{V: v, Cmp: c, IsCmp: true})
 			}
+			be.occur(i, v, pol)
 			return i, pol
 		}
 	}
@@ -93,6 +111,7 @@ func (be *boolEval) atom(v ssa.Value) (int, bool) {
 		be.index[k] = i
 		be.atoms = append(be.atoms, BoolAtom{V: v})
 	}
+	be.occur(i, v, true)
 	return i, true
 }
 
@@ -112,6 +131,7 @@ func (be *boolEval) collect(v ssa.Value, seen map[ssa.Value]bool, d int) {
 		}
 	case *ssa.Phi:
 		if isBool(x) {
+			be.phis = append(be.phis, x)
 			for _, e := range x.Edges {
 				be.collect(e, seen, d+1)
 			}
@@ -297,6 +317,175 @@ func FindGateAny(p *Prog, fn *ssa.Function, name string, m func(c Cmp, isCmp boo
 		}
 		for si, val := range []bool{true, false} {
 			if f.ImpliesAny(val, m) {
+				g.Accept[Edge{b, si}] = true
+				g.Sites = append(g.Sites, p.Pos(iff.Cond.Pos()))
+			}
+		}
+	})
+	return g
+}
+
+// impliedByTable: the atoms (every occurrence) and boolean merges that have one and the same truth
+// value under every assignment for which v == val. ok is false when v is outside the domain.
+func impliedByTable(v ssa.Value, val bool) (out []Atom, ok bool) {
+	be := &boolEval{index: map[boolAtomKey]int{}}
+	be.collect(v, map[ssa.Value]bool{}, 0)
+	n := len(be.atoms)
+	if n == 0 || n > 12 {
+		return nil, false
+	}
+	type tv struct{ t, f bool }
+	atomSeen := make([]tv, n)
+	phiSeen := make([]tv, len(be.phis))
+	any := false
+	for a := uint(0); a < 1<<uint(n); a++ {
+		r := be.eval(v, a, 0)
+		if be.fail || len(be.atoms) != n {
+			return nil, false
+		}
+		if r != val {
+			continue
+		}
+		any = true
+		for i := 0; i < n; i++ {
+			if a>>uint(i)&1 == 1 {
+				atomSeen[i].t = true
+			} else {
+				atomSeen[i].f = true
+			}
+		}
+		for i, ph := range be.phis {
+			pv := be.eval(ph, a, 0)
+			if be.fail {
+				return nil, false
+			}
+			if pv {
+				phiSeen[i].t = true
+			} else {
+				phiSeen[i].f = true
+			}
+		}
+	}
+	if !any {
+		return nil, true // v never has this value: nothing to learn (the edge is dead)
+	}
+	for i := 0; i < n; i++ {
+		if atomSeen[i].t == atomSeen[i].f {
+			continue
+		}
+		for _, o := range be.atoms[i].Occ {
+			out = append(out, Atom{o.V, atomSeen[i].t == o.Pol})
+		}
+	}
+	for i, ph := range be.phis {
+		if phiSeen[i].t != phiSeen[i].f {
+			out = append(out, Atom{ph, phiSeen[i].t})
+		}
+	}
+	return out, true
+}
+
+// AtomMatcher selects atoms (comparisons in canonical form, other boolean values, boolean merges)
+// and says which truth value of the selected value is the accepting one.
+type AtomMatcher func(c Cmp, isCmp bool, v ssa.Value) (match, acceptWhenHolds bool)
+
+// FindGateDNF: the edges of fn on which a disjunction of conjunctions is known to hold: for every
+// assignment of the tested condition's atoms that takes the edge, some term has all its matchers
+// satisfied (each by an atom, or a boolean merge, with its accepting value). This reads, e.g.,
+// `ok := (flag && a == b) || a == c; if !ok { reject }` as the test it is.
+func FindGateDNF(p *Prog, fn *ssa.Function, name string, terms [][]AtomMatcher) *Gate {
+	g := &Gate{Name: name, Accept: EdgeSet{}}
+	IfEdges(fn, func(iff *ssa.If, b *ssa.BasicBlock) {
+		be := &boolEval{index: map[boolAtomKey]int{}}
+		be.collect(iff.Cond, map[ssa.Value]bool{}, 0)
+		n := len(be.atoms)
+		if n == 0 || n > 12 {
+			return
+		}
+		type sel struct {
+			atom, phi int
+			want      bool
+		}
+		// per term, per matcher: the selected atoms / merges
+		selT := make([][][]sel, len(terms))
+		usable := false
+		for ti, term := range terms {
+			selT[ti] = make([][]sel, len(term))
+			okTerm := true
+			for mi, m := range term {
+				for i, a := range be.atoms {
+					match, acc := m(a.Cmp, a.IsCmp, a.V)
+					if !match && a.IsCmp && a.Cmp.Op == token.EQL {
+						match, acc = m(a.Cmp.Mirror(), true, a.V)
+					}
+					if match {
+						selT[ti][mi] = append(selT[ti][mi], sel{atom: i, phi: -1, want: acc})
+					}
+				}
+				for i, ph := range be.phis {
+					if match, acc := m(Cmp{}, false, ph); match {
+						selT[ti][mi] = append(selT[ti][mi], sel{atom: -1, phi: i, want: acc})
+					}
+				}
+				if len(selT[ti][mi]) == 0 {
+					okTerm = false
+				}
+			}
+			if okTerm {
+				usable = true
+			} else {
+				selT[ti] = nil
+			}
+		}
+		if !usable {
+			return
+		}
+		for si, val := range []bool{true, false} {
+			holds, some := true, false
+			for a := uint(0); a < 1<<uint(n) && holds; a++ {
+				r := be.eval(iff.Cond, a, 0)
+				if be.fail || len(be.atoms) != n {
+					return
+				}
+				if r != val {
+					continue
+				}
+				some = true
+				sat := false
+				for ti := range terms {
+					if selT[ti] == nil {
+						continue
+					}
+					all := true
+					for _, alts := range selT[ti] {
+						one := false
+						for _, s := range alts {
+							var v bool
+							if s.atom >= 0 {
+								v = a>>uint(s.atom)&1 == 1
+							} else {
+								v = be.eval(be.phis[s.phi], a, 0)
+							}
+							if v == s.want {
+								one = true
+								break
+							}
+						}
+						if !one {
+							all = false
+							break
+						}
+					}
+					if all {
+						sat = true
+						break
+					}
+				}
+				if !sat {
+					holds = false
+				}
+			}
+			if holds && some {
 				g.Accept[Edge{b, si}] = true
 				g.Sites = append(g.Sites, p.Pos(iff.Cond.Pos()))
 			}
